@@ -4,7 +4,8 @@ from pyvc.engine import Obj, NVec
 from pyvc import library as L
 from pyvc.values import PyExc, to_real, z_and, z_or, z_not, to_bool
 
-FUNCS = ['geometry.line_intersects_rectangle', 'geometry.in_rectangle', 'geometry.rectangles_intersect', 'geometry.sub_rectangles', 'geometry.bounds_of_points',
+FUNCS = ['mulgrids.mulgrid.column_containing_point', 'mulgrids.mulgrid.block_name_containing_point', 'mulgrids.column.contains_point', 'mulgrids.column.near_point', 'mulgrids.mulgrid.column_quadtree', 'mulgrids.quadtree.search',
+         'geometry.line_intersects_rectangle', 'geometry.in_rectangle', 'geometry.rectangles_intersect', 'geometry.sub_rectangles', 'geometry.bounds_of_points',
          'mulgrids.layer.contains_elevation', 'mulgrids.mulgrid.layer_containing_elevation', 'mulgrids.quadtree.leaf',
          'geometry.in_polygon']
 
@@ -176,7 +177,90 @@ def p_line_rectangle(e, _a=None):
     e.explore(prog, 'line_rectangle')
 
 
-PROGRAMS = [('p_line_rectangle', None), ('p_rectangles', None), ('p_sub_rectangles', None)] + [('p_bounds_of_points', n) for n in (1, 2, 3, 5, 8)] + \
+def p_locate(e, arg):
+    """column_containing_point on a real rectangular geometry (symbolic spacings, symbolic point) with each search aid:
+    a point strictly inside a column is reported in that column whatever the aid, a point strictly outside the domain
+    yields nothing, and the reported column contains the point."""
+    shape, aid = arg
+    tag = '[%dx%d, aid=%s]' % (shape[0], shape[1], aid if not isinstance(aid, tuple) else '%s%s' % (aid[0], list(aid[1:])))
+    from contracts.c04 import build_rect, _valid
+    def prog(e):
+        geo, S = build_rect(e, shape[0], shape[1], 2, 0, 0, 0)
+        nx, ny = shape
+        px, py = e.sym_real('px'), e.sym_real('py')
+        rect = []
+        for j in range(ny):
+            for i in range(nx):
+                x0 = S['org'][0] + sum(S['dx'][:i]); y0 = S['org'][1] + sum(S['dy'][:j])
+                rect.append((x0, x0 + S['dx'][i], y0, y0 + S['dy'][j]))
+        cols = geo.fields['columnlist']
+        kw = {}
+        if isinstance(aid, tuple) and aid[0] == 'guess':
+            kw['guess'] = cols[aid[1]]
+        elif aid == 'bounds':
+            kw['bounds'] = [NVec([rect[0][0], rect[0][2]]), NVec([rect[-1][1], rect[-1][3]])]
+        elif isinstance(aid, tuple) and aid[0] == 'subset':
+            kw['columns'] = [cols[k] for k in aid[1:]]
+        elif aid == 'quadtree':
+            kw['qtree'] = e.call(e.getattr(geo, 'column_quadtree'), [])
+        try:
+            r = e.call(e.getattr(geo, 'column_containing_point'), [NVec([px, py])], kw)
+        except PyExc as ex:
+            e.fail('safety:column_containing_point_total' + tag, 'raises %s: %s' % (ex.cls, ex.msg)); return
+        tol = z3.RealVal('1/1000000')        # the statement quantifies over points not within a small tolerance of a column edge (in_polygon ignores edges shorter than 1e-6 in y)
+        inside = [z3.And(a + tol < px, px < b - tol, c + tol < py, py < d - tol) for (a, b, c, d) in rect]
+        searched = range(len(cols)) if not (isinstance(aid, tuple) and aid[0] == 'subset') else aid[1:]
+        if r is None:
+            e.prove(z3.And(*[z3.Not(inside[k]) for k in searched]), 'post:a_point_strictly_inside_a_searched_column_is_found' + tag)
+        else:
+            k = [i for i, c in enumerate(cols) if c is r]
+            e.prove(len(k) == 1, 'post:the_result_is_a_column_of_the_geometry' + tag)
+            a, b, c, d = rect[k[0]]
+            e.prove(z3.And(a <= px, px <= b, c <= py, py <= d), 'post:the_reported_column_contains_the_point' + tag)
+            e.prove(z3.And(*[z3.Not(inside[j]) for j in searched if j != k[0]]), 'post:a_point_strictly_inside_a_searched_column_is_found' + tag)
+            outside = z3.Or(px < rect[0][0], px > rect[-1][1], py < rect[0][2], py > rect[-1][3])
+            e.prove(z3.Not(outside), 'post:a_point_outside_the_domain_yields_nothing' + tag)
+    e.explore(prog, 'locate')
+
+
+def p_locate_block(e, arg):
+    """block_name_containing_point: the block reported for a 3-D point is the unique block that contains it."""
+    shape, atm = arg
+    tag = '[%dx%dx%d atm%d]' % (shape + (atm,))
+    from contracts.c04 import build_rect, _valid
+    def prog(e):
+        geo, S = build_rect(e, shape[0], shape[1], shape[2], atm, 0, 1)
+        nx, ny, nz = shape
+        px, py, pz = e.sym_real('px'), e.sym_real('py'), e.sym_real('pz')
+        try:
+            r = e.call(e.getattr(geo, 'block_name_containing_point'), [NVec([px, py, pz])])
+        except PyExc as ex:
+            e.fail('safety:block_name_containing_point_total' + tag, 'raises %s: %s' % (ex.cls, ex.msg)); return
+        # the blocks of the statement: column rectangle x [layer bottom, block top), block top = surface in the top block
+        contains = {}
+        for ci in range(nx * ny):
+            i, j = ci % nx, ci // nx
+            x0 = S['org'][0] + sum(S['dx'][:i]); y0 = S['org'][1] + sum(S['dy'][:j])
+            tol = z3.RealVal('1/1000000')
+            incol = z3.And(x0 + tol < px, px < x0 + S['dx'][i] - tol, y0 + tol < py, py < y0 + S['dy'][j] - tol)
+            sf = S['surf'][ci]
+            for li in range(1, nz + 1):
+                bot, top = S['bottoms'][li - 1], S['tops'][li - 1]
+                exists = sf > bot
+                btop = z3.If(z3.Or(sf <= top, li == 1), sf, top)
+                name = e.call(e.getattr(geo, 'block_name'), [geo.fields['layerlist'][li].fields['name'], geo.fields['columnlist'][ci].fields['name']])
+                contains[name] = z3.And(incol, exists, bot < pz, pz < btop)
+        if r is None:
+            e.prove(z3.And(*[z3.Not(c) for c in contains.values()]), 'post:a_point_strictly_inside_a_block_is_reported_in_it' + tag)
+        else:
+            e.prove(r in contains, 'post:the_result_is_an_underground_block_of_the_geometry' + tag)
+            if r in contains:
+                e.prove(z3.And(*[z3.Not(c) for n, c in contains.items() if n != r]), 'post:a_point_strictly_inside_a_block_is_reported_in_it' + tag)
+    e.explore(prog, 'locate_block')
+
+
+LOCATE = [((2, 2), None), ((2, 2), ('guess', 0)), ((2, 2), ('guess', 3)), ((2, 2), 'bounds'), ((2, 2), ('subset', 0, 3)), ((3, 1), ('guess', 0)), ((3, 2), None), ((2, 2), 'quadtree')]
+PROGRAMS = [('p_locate', a) for a in LOCATE] + [('p_locate_block', ((2, 1, 2), a)) for a in (0, 1, 2)] + [('p_line_rectangle', None), ('p_rectangles', None), ('p_sub_rectangles', None)] + [('p_bounds_of_points', n) for n in (1, 2, 3, 5, 8)] + \
            [('p_layer_containing_elevation', None), ('p_quadtree_leaf', None), ('p_in_polygon_triangle', None)]
 
 
@@ -187,6 +271,10 @@ def _fl(v):
 def replay(obname, model, result):
     m = model or {}
     prog = result['program']
+    if prog == 'p_locate':
+        return ("from contracts.c04_native import native_locate\nok, detail = native_locate(%r, %r)\n") % (result['arg'], m)
+    if prog == 'p_locate_block':
+        return ("from contracts.c04_native import native_locate_block\nok, detail = native_locate_block(%r, %r)\n") % (result['arg'], m)
     if prog == 'p_line_rectangle' and 'ax' in m:
         return ("import numpy as np\nfrom geometry import line_intersects_rectangle\n"
                 "r = [np.array([%s, %s]), np.array([%s, %s])]; a = np.array([%s, %s]); b = np.array([%s, %s])\n"
